@@ -106,6 +106,7 @@ namespace igris
         {
             int idx = r.tail;
             buffer[idx].~T();
+            new (buffer.data() + idx) T();
             ring_move_tail_one(&r);
         }
 
